@@ -260,6 +260,7 @@ fn registrable(h: &str) -> &str {
 }
 
 fn covers(listed: &str, host: &str) -> bool {
+    if mutn()==2 { return host == listed; }
     host == listed || (host.len() > listed.len() && host.ends_with(listed) && host.as_bytes()[host.len() - listed.len() - 1] == b'.')
 }
 
@@ -269,7 +270,7 @@ fn is_ws(o: &ORq) -> bool {
 
 /// The request's effective type: a websocket scheme forces the websocket type.
 fn effective_type(o: &ORq) -> Option<u16> {
-    if is_ws(o) {
+    if mutn()!=5 && is_ws(o) {
         Some(WEBSOCKET)
     } else {
         o.ty
@@ -286,7 +287,7 @@ fn allowed_types(a: &Ast) -> Option<u16> {
         (NET & !a.neg) | (a.pos & DOC)
     } else if a.pos == 0 {
         // no positive type => all network types but not document; `||host^` => all types
-        if matches!(a.form, Form::HostCaret(_)) {
+        if mutn()!=4 && matches!(a.form, Form::HostCaret(_)) {
             NET | DOC
         } else {
             NET
@@ -295,6 +296,8 @@ fn allowed_types(a: &Ast) -> Option<u16> {
         a.pos
     })
 }
+
+fn mutn() -> u32 { static M: std::sync::OnceLock<u32> = std::sync::OnceLock::new(); *M.get_or_init(|| std::env::var("C03_MUT").ok().and_then(|v| v.parse().ok()).unwrap_or(0)) }
 
 fn type_clause(a: &Ast, o: &ORq) -> Tri {
     let allowed = match allowed_types(a) {
@@ -305,7 +308,7 @@ fn type_clause(a: &Ast, o: &ORq) -> Tri {
         Some(b) => b,
         None => return Tri::Unspec,
     };
-    if a.exception && rt == DOC {
+    if mutn()!=3 && a.exception && rt == DOC {
         // an exception applies to document requests whatever its types
         return Tri::Must(true);
     }
@@ -320,6 +323,7 @@ fn party_clause(a: &Ast, o: &ORq) -> Tri {
         None => Tri::Unspec,
         Some(i) => {
             let first = registrable(i) == registrable(&o.host);
+            if mutn()==1 && a.party.as_deref()==Some("~1p") { return Tri::Must(if first { a.third_ok } else { a.first_ok }); }
             Tri::Must(if first { a.first_ok } else { a.third_ok })
         }
     }
@@ -335,6 +339,7 @@ fn domain_clause(a: &Ast, o: &ORq) -> Tri {
             }
         }
         Some(i) => {
+            if mutn()==7 && a.dom_pos.iter().any(|d| covers(d, i)) { return Tri::Must(true); }
             if a.dom_neg.iter().any(|d| covers(d, i)) {
                 return Tri::Must(false); // exclusions win
             }
@@ -1281,5 +1286,5 @@ fn check(ctx: &Ctx) -> i32 {
 }
 
 fn main() {
-    run_main("C03", check, replay)
+    run_main("C03", check, replay) // MUT
 }
